@@ -10,6 +10,7 @@ use serde::{Deserialize, Serialize};
 use std::cmp::Reverse;
 use std::collections::{BTreeSet, BinaryHeap, HashMap, HashSet, VecDeque};
 use std::fmt;
+use std::future::Future;
 use std::io::{self, IoSliceMut};
 use std::net::{IpAddr, Ipv4Addr, SocketAddr};
 use std::pin::Pin;
@@ -93,7 +94,16 @@ impl Ord for InFlight {
 struct SockInner {
     inbox: Mutex<VecDeque<Datagram>>,
     waker: Mutex<Option<Waker>>,
+    /// datagrams handed to the fabric during the current virtual millisecond
+    rate: Mutex<(u64, u64)>,
 }
+
+/// A socket has a finite send rate: at most this many datagrams per virtual millisecond
+/// (~2 Gbit/s at 1200 bytes). Beyond it `try_send` reports `WouldBlock` until the next
+/// millisecond, exactly like a full socket buffer. Without this, code that re-sends in a
+/// self-waking loop (quinn does while closing a connection mid-handshake) would never let the
+/// paused clock advance.
+pub const SEND_BUDGET_PER_MS: u64 = 200;
 
 /// A "new connection attempt" seen on the wire: a QUIC Initial with a never-seen DCID.
 #[derive(Clone, Debug, Serialize)]
@@ -350,6 +360,9 @@ impl Fabric {
                 st.instant_sends.1 = n + 1;
                 if n + 1 > LIVELOCK_SENDS_PER_INSTANT {
                     st.livelock = true;
+                    if std::env::var_os("VERIF_VERBOSE").is_some() {
+                        eprintln!("sim livelock at {:?}: last datagram {} -> {} len {} first byte {:#04x}", now - self.epoch, dgram.src, dgram.dst, dgram.data.len(), dgram.data.first().copied().unwrap_or(0));
+                    }
                     return Err(io::Error::new(io::ErrorKind::WouldBlock, "sim livelock"));
                 }
             }
@@ -473,33 +486,67 @@ impl Drop for SimSocket {
     }
 }
 
-#[derive(Debug)]
-struct AlwaysWritable;
-impl UdpPoller for AlwaysWritable {
-    fn poll_writable(self: Pin<&mut Self>, _cx: &mut Context) -> Poll<io::Result<()>> {
-        Poll::Ready(Ok(()))
+/// Writable unless the socket used up its send budget for the current virtual millisecond
+/// (then: writable again at the next millisecond) or the simulator declared a livelock (then
+/// senders park so that the case can end as inconclusive).
+struct SimPoller {
+    sock: Arc<SimSocket>,
+    sleep: Option<Pin<Box<tokio::time::Sleep>>>,
+}
+impl fmt::Debug for SimPoller {
+    fn fmt(&self, f: &mut fmt::Formatter<'_>) -> fmt::Result {
+        f.write_str("SimPoller")
     }
 }
-
-#[derive(Debug)]
-struct NeverWritable;
-impl UdpPoller for NeverWritable {
-    fn poll_writable(self: Pin<&mut Self>, _cx: &mut Context) -> Poll<io::Result<()>> {
-        Poll::Pending
+impl UdpPoller for SimPoller {
+    fn poll_writable(mut self: Pin<&mut Self>, cx: &mut Context) -> Poll<io::Result<()>> {
+        if self.sock.fabric.livelocked() {
+            return Poll::Pending;
+        }
+        if let Some(sleep) = self.sleep.as_mut() {
+            match sleep.as_mut().poll(cx) {
+                Poll::Pending => return Poll::Pending,
+                Poll::Ready(()) => self.sleep = None,
+            }
+        }
+        let now_ms = self.sock.fabric.now_ms();
+        let exhausted = {
+            let r = self.sock.inner.rate.lock().unwrap();
+            r.0 == now_ms && r.1 >= SEND_BUDGET_PER_MS
+        };
+        if exhausted {
+            let mut sleep = Box::pin(tokio::time::sleep(Duration::from_millis(1)));
+            match sleep.as_mut().poll(cx) {
+                Poll::Pending => {
+                    self.sleep = Some(sleep);
+                    Poll::Pending
+                }
+                Poll::Ready(()) => Poll::Ready(Ok(())),
+            }
+        } else {
+            Poll::Ready(Ok(()))
+        }
     }
 }
 
 impl AsyncUdpSocket for SimSocket {
     fn create_io_poller(self: Arc<Self>) -> Pin<Box<dyn UdpPoller>> {
-        if self.fabric.livelocked() {
-            Box::pin(NeverWritable)
-        } else {
-            Box::pin(AlwaysWritable)
-        }
+        Box::pin(SimPoller { sock: self, sleep: None })
     }
 
     fn try_send(&self, transmit: &Transmit) -> io::Result<()> {
         let seg = transmit.segment_size.unwrap_or(transmit.contents.len()).max(1);
+        {
+            let now_ms = self.fabric.now_ms();
+            let mut r = self.inner.rate.lock().unwrap();
+            if r.0 != now_ms {
+                *r = (now_ms, 0);
+            }
+            if r.1 >= SEND_BUDGET_PER_MS {
+                return Err(io::Error::new(io::ErrorKind::WouldBlock, "sim send budget for this millisecond used up"));
+            }
+            r.1 += transmit.contents.len().div_ceil(seg) as u64;
+        }
         for chunk in transmit.contents.chunks(seg) {
             self.fabric.send(Datagram {
                 src: self.addr,
